@@ -102,8 +102,7 @@ func (t *Tape) Chance(num, den uint64) bool {
 		return false
 	}
 	if num >= den {
-		// still consume so that shrinking to zero can switch it off
-		return t.Draw(2) == 1 || true
+		return true
 	}
 	v := t.Draw(den)
 	return v >= den-num
